@@ -295,6 +295,8 @@ class Spec:
         ops.append(Op("validate", None, self._validate(False)))
         ops.append(Op("validate_donothing", None, self._validate(True)))
         ops.append(Op("inverseJacobian", None, self._query("inverseJacobian")))
+        ops.append(Op("inverseJacobian_at", "B", self._query("inverseJacobian_at")))
+        ops.append(Op("staticForces_at", "B", self._query("staticForces_at")))
         ops.append(Op("staticForces", "F", self._query("staticForces")))
         ops.append(Op("carryMassCalc", "F", self._query("carryMassCalc")))
         for k in RAND:
@@ -397,7 +399,13 @@ class Spec:
             sp, log = st.sp, []
             before = poses(sp)
             with calling(sp, log):
-                if name == "inverseJacobian":
+                if name in ("inverseJacobian_at", "staticForces_at"):
+                    # the query for explicitly given poses of BOTH plates somewhere else (the neutral pose on the base B)
+                    Bq = taa_T(MOVE_B)
+                    top, bot = self.tm((Bq @ self._rel_T("in")).copy()), self.tm(Bq.copy())
+                    r = sp.inverseJacobian(top, bot) if name == "inverseJacobian_at" else sp.staticForces(
+                        self.Wrench(np.array(FORCE)), top, bot)
+                elif name == "inverseJacobian":
                     r = sp.inverseJacobian()
                 elif name == "staticForces":
                     r = sp.staticForces(self.Wrench(np.array(FORCE)))
